@@ -736,3 +736,151 @@ func brokerStacks() string {
 	sort.Strings(out)
 	return strings.Join(out, " | ")
 }
+
+// ---------------------------------------------------------------------------
+// C17: histories of source files (appear, rewrite, append, touch, replace by an
+// older file) between and during scans, hashing and transmission.
+
+func (s *Sim) writeOlder(t *vt.T, name string) {
+	v := s.lastVersion(name)
+	if v == nil {
+		return
+	}
+	data := s.content(len(v.data)) // same size, other bytes
+	p := filepath.Join(s.srcDir, name)
+	tmp := p + ".mv.lck"
+	os.WriteFile(tmp, data, 0644)
+	// an older file moved into place: modification time earlier than any this name had
+	tm := s.lastMtime[name]
+	if e, ok := s.earliest[name]; ok {
+		tm = e
+	}
+	tm = tm.Add(-time.Duration(1+t.IntRange("olderBy", 0, 3600)) * time.Second)
+	s.earliest[name] = tm
+	os.Chtimes(tmp, tm, tm)
+	os.Rename(tmp, p)
+	nv := &srcVersion{name: name, data: data, hash: md5hex(data), at: time.Now()}
+	s.mu.Lock()
+	s.versions[name] = append(s.versions[name], nv)
+	s.mu.Unlock()
+	s.w.mu.Lock()
+	s.w.AddVersion(&Version{Name: name, Data: data, Time: tm})
+	s.w.mu.Unlock()
+	s.t.Note("@%s source %s <- version %s (%d bytes) moved into place with an EARLIER time", s.clock(), name, nv.hash[:6], len(data))
+	s.lastPerturb = time.Now()
+}
+
+func TestC17Sim(t *testing.T) {
+	vt.CheckBubble(t, "C17", func(t *vt.T) {
+		p := SimProfile{Prop: "C17", Mutations: true, MaxSteps: 70, MaxFiles: 4}
+		conf := genSimConf(t, p)
+		s := NewSim(t, p.Prop, conf)
+		defer s.Close()
+		s.earliest = map[string]time.Time{}
+		nf := t.IntRange("nFiles", 1, p.MaxFiles)
+		sizes := func(label string) int {
+			c, pl := int(conf.ChunkSize), int(conf.PayloadSize)
+			opts := []int{1, 2, c, c + 1, 2 * c, pl + 1, 2*pl + 3}
+			return opts[t.Pick(label, len(opts))]
+		}
+		for i := 0; i < nf; i++ {
+			s.WriteSource(fmt.Sprintf("g%d/f%d.dat", t.Pick("group", conf.Groups), i), sizes("size"), time.Duration(10+nf-i)*time.Minute)
+		}
+		// ineligible files: never transmitted, never deleted
+		inel := map[string][]byte{"g0/.hidden.dat": []byte("hidden"), "g0/work.dat.lck": []byte("locked"), "g0/empty.dat": {}, ".hdir/inside.dat": []byte("in hidden dir")}
+		for n, b := range inel {
+			os.MkdirAll(filepath.Dir(filepath.Join(s.srcDir, n)), 0755)
+			os.WriteFile(filepath.Join(s.srcDir, n), b, 0644)
+			old := time.Now().Add(-time.Hour)
+			os.Chtimes(filepath.Join(s.srcDir, n), old, old)
+		}
+		s.StartSender()
+		steps := t.IntRange("nSteps", 5, p.MaxSteps)
+		during := false
+		for i := 0; i < steps; i++ {
+			pend := s.Pending()
+			switch t.Weighted("action", 10, 4, 3, 2) {
+			case 0:
+				if len(pend) > 0 {
+					s.Serve(pend[t.Pick("which", len(pend))], Fault{})
+				}
+			case 1:
+				time.Sleep(simWaits[t.Pick("wait", len(simWaits))])
+			case 2:
+				if len(pend) > 0 {
+					during = true // a change while requests are outstanding
+				}
+				s.mutate(t, sizes)
+			case 3:
+				names := s.names()
+				if len(pend) > 0 {
+					during = true
+				}
+				s.writeOlder(t, names[t.Pick("olderName", len(names))])
+				t.Class("replaced-by-older-file")
+			}
+			s.observe()
+		}
+		ok := s.Quiesce(4*(conf.ScanDelay+conf.PollDelay+time.Duration(conf.PollAttempts)*conf.PollInterval) + 5*time.Minute)
+		s.observe()
+		simNonTrivial(s, t)
+		if during && (t.HasClass("file-rewritten") || t.HasClass("replaced-by-older-file")) {
+			t.NonTrivial()
+			t.Class("change-during-transmission")
+		}
+		if !ok {
+			// C17 promises that a changed file is hashed and sent again; whether what was sent is
+			// then delivered is C03's subject (see its finding about two versions in flight).
+			for _, name := range s.names() {
+				v := s.lastVersion(name)
+				if s.delivered(name, v.hash) {
+					continue
+				}
+				var got []rng
+				for _, wp := range s.wire {
+					if wp.name == name && wp.hash == v.hash {
+						got = append(got, rng{wp.beg, wp.end})
+					}
+				}
+				if covered(got, 0, int64(len(v.data))) {
+					t.Class("sent-again-but-not-delivered")
+					continue
+				}
+				s.viol("C17", "changed-file-not-sent-again", "the source directory was left alone for several scan cycles, yet the current version %.6s of %s was never transmitted in full: %s", v.hash, name, s.stuckReport())
+			}
+		}
+		for n, b := range inel {
+			got, err := os.ReadFile(filepath.Join(s.srcDir, n))
+			if err != nil || string(got) != string(b) {
+				s.viol("C17", "ineligible-file-touched", "ineligible file %s was deleted or modified", n)
+			}
+			for _, wp := range s.wire {
+				if wp.name == n {
+					s.viol("C17", "ineligible-file-transmitted", "ineligible file %s was transmitted", n)
+				}
+			}
+		}
+		// each version delivered at most once (mixtures are caught by the arrival monitor)
+		cnt := map[string]int{}
+		for _, a := range s.w.arrivals {
+			cnt[a.Target+"|"+a.MD5]++
+		}
+		// The statement forbids picking an unchanged file up again by a scan; sending again after
+		// a failed verdict for that name (whatever version it was about) is C07's subject.
+		excused := map[string]bool{}
+		for k := range s.retransAllowed {
+			excused[k[:strings.LastIndex(k, "|")]] = true
+		}
+		inst := map[string]int{} // a name may return to earlier content: each such version counts
+		for name, vs := range s.versions {
+			for _, v := range vs {
+				inst[name+"|"+v.hash]++
+			}
+		}
+		for k, n := range cnt {
+			if n > 1 && n > inst[k] && !excused[k[:strings.LastIndex(k, "|")]] {
+				s.viol("C17", "version-delivered-twice", "%s was delivered %d times although no verdict asked for it again", k, n)
+			}
+		}
+	})
+}
